@@ -338,6 +338,8 @@ impl Shared {
     /// Refreshes the current snapshot with the latest store data.
     pub fn refresh_snapshot(&self) {
         let new = self.snapshot().refresh(self.store.get_snapshot());
+        #[cfg(ckb_verif)]
+        ckb_util::verif::point("shared::refresh_snapshot_before_store");
         self.store_snapshot(Arc::new(new));
     }
 
